@@ -97,6 +97,8 @@ def judge(ctx, case, o, stats):
     exp = case["exp"]
     probe = case.get("probe", "?")
     kinds = "+".join(sorted(kinds_of(case) - {"StringRef"})) if probe == "builder" else probe
+    if case.get("mode") == "incremental":
+        kinds += ":incremental"
     if o is None or "outcome" in o:
         oc = (o or {}).get("outcome")
         if case.get("beyond"):
@@ -158,21 +160,30 @@ def run(ctx):
     else:
         runs = [("kinds", dict(Mode='"kinds"', MaxS=0, MaxM=0, MaxUnits=2, Salt=s, EmitMod=1, AllPlacements="TRUE")),
                 ("builder", dict(Mode='"builder"', MaxS=4, MaxM=1, MaxUnits=2, Salt=s, EmitMod=1, AllPlacements="FALSE")),
-                ("builder", dict(Mode='"builder"', MaxS=3, MaxM=2, MaxUnits=2, Salt=s + 1, EmitMod=1, AllPlacements="FALSE"))]
+                ("builder", dict(Mode='"builder"', MaxS=3, MaxM=2, MaxUnits=2, Salt=s + 1, EmitMod=5, AllPlacements="FALSE"))]
     stats = {"exp_err": 0, "same": 0, "bytes_equal": 0}
     seen_kinds = set()
     for ri, (name, consts) in enumerate(runs):
         write_cfg("MCUnitWriter_run", consts)
         r = ctx.tlc("MCUnitWriter", "MCUnitWriter_run", timeout=7200, cases_name="unitw-%d" % ri)
-        cases = list(read_ndjson(r.cases_path))
+        cases = []
+        for case in read_ndjson(r.cases_path):
+            case["mode"] = "dwarf"
+            cases.append(case)
+            # the same script written unit by unit (ConvertUnit::write) and finished by Dwarf::write
+            if case.get("probe") not in ("badversion", "asz3") and \
+               not (kinds_of(case) & {"LocationListRef", "RangeListRef", "FileIndex"}):
+                cases.append(dict(case, mode="incremental"))
+        path = os.path.join(ctx.work, "unitw-%d-replay.ndjson" % ri)
+        write_ndjson(path, cases)
         for prof, binp in bins:
-            obs = ctx.replay(binp, r.cases_path, tag="unitw-%d-%s" % (ri, prof))
+            obs = ctx.replay(binp, path, tag="unitw-%d-%s" % (ri, prof))
             for i, case in enumerate(cases):
                 judge(ctx, case, obs.get(i), stats)
                 if prof == "dev":
                     seen_kinds |= kinds_of(case)
                     if case["exp"]["ok"] or case.get("beyond"):
-                        ctx.nontrivial(canon([case["units"], case["calls"], case["be"]]))
+                        ctx.nontrivial(canon([case["units"], case["calls"], case["be"], case["mode"]]))
                     if i in (0, len(cases) // 2) and len(ctx.cov["samples"]) < 4:
                         ctx.sample({"calls": case["calls"][-3:], "units": case["units"],
                                     "exp": (case["exp"]["units"][0]["entries"][:2] if case["exp"]["ok"] else case["exp"]),
@@ -188,7 +199,7 @@ def run(ctx):
     ctx.assumptions += [
         "address sizes are those gimli's reader accepts (1, 2, 4, 8); address size 3 only together with an address (expected: error)",
         "strings contain no NUL byte and expressions are raw bytecode (operation lists are C15's machine)",
-        "AttributeValue::FileIndex(Some) / line programs, DebugInfoRef::Symbol and incremental per-unit writing (ConvertUnit::write) are not generated",
+        "AttributeValue::FileIndex(Some) / line programs and DebugInfoRef::Symbol are not generated; incremental per-unit writing goes through ConvertUnit::write on a conversion of an input with pre-reserved dummy entries",
         "offsets of range / location lists, line programs and of the abbreviation tables of later units are not predicted (compared through the reader only)",
         "which error variant is reported is compared as drift; byte-exact .debug_info / entry offsets are compared as drift when the meaning is intact",
     ]
